@@ -208,10 +208,10 @@ def run(tier):
         prods = [("prod-2x2", 3, 2, 2, [0, 1, 2, 4], [2012, 3012, 3021, 4012, 6012], [1000, 5003], ["unit", "dst", "zero"], True, 5),
                  ("prod-3x2", 2, 3, 2, [0, 1, 2], [2012, 6012], [1000, 5002], ["dst"], True, 0)]
     else:
-        prods = [("prod-2x2", 3, 2, 2, [0, 1, 2, 4, 5, 6], [2012, 3012, 3021, 4012, 6012, 3121, 1000], [1000, 5003, 5001],
+        prods = [("prod-2x2", 3, 2, 2, [0, 1, 2, 4, 5, 6], [2012, 3012, 3021, 4012, 6012, 3121], [1000, 5003],
                   ["unit", "dst", "zero"], True, 6),
-                 ("prod-2x2-nosym", 3, 2, 2, [0, 1, 2, 4], [2012, 3021, 6012], [1000, 5003], ["dst"], False, 0),
-                 ("prod-3x2", 3, 3, 2, [0, 1, 2, 4], [2012, 3012, 4012, 6012], [1000, 5003], ["unit", "dst", "zero"], True, 0),
+                 ("prod-2x2-nosym", 3, 2, 2, [0, 1, 2, 4], [2012, 3021, 6012], [1000, 5003, 5001], ["dst"], False, 0),
+                 ("prod-3x2", 3, 3, 2, [0, 1, 2, 4], [2012, 6012], [1000, 5003], ["dst", "zero"], True, 0),
                  ("prod-3x2-3", 3, 3, 2, [0, 1, 2, 4], [2123, 3123, 6123], [1000], ["dst"], True, 0)]
     for name, np_, w, h, labels, cos, sas, schemes, sym, bound in prods:
         path = os.path.join(WORK, "g02-%s.ndjson" % name)
@@ -245,7 +245,7 @@ def run(tier):
         raise FrameworkError("vacuity gate: computeLead was never asked for a lead that does not exist")
 
     # 3. recorded executions validated against the contract
-    recs = [400, 400] if quick else [1500] * 6
+    recs = [400, 400] if quick else [1500] * 4
     for i, nexec in enumerate(recs):
         tpath = os.path.join(WORK, "g02-trace-%d.ndjson" % i)
         rc, out, err = _hrun([binary, "record", tpath, str(nexec)], timeout=1200,
